@@ -38,7 +38,7 @@ CHECKS = {
     },
     "C02": {
         "level": "exploration",
-        "tests": fam("C02", (2500, 480000), (25, 4800), (10, 1920), regress=False, mid=(1200, 230400), extra=({"name": "TestC02ManyFields", "quick": 60, "thorough": 5760, "min_per_shard": 20}, {"name": "TestC02Huge", "quick": 2, "thorough": 96, "min_per_shard": 2})),
+        "tests": fam("C02", (2500, 480000), (25, 4800), (40, 1920), regress=False, mid=(1200, 230400), extra=({"name": "TestC02ManyFields", "quick": 60, "thorough": 5760, "min_per_shard": 20}, {"name": "TestC02Huge", "quick": 2, "thorough": 96, "min_per_shard": 2})),
         "assumptions": COMMON_ASSUMPTIONS,
     },
     "C03": {
@@ -79,13 +79,13 @@ CHECKS = {
     },
     "C16": {
         "level": "exploration",
-        "tests": [{"name": "TestC16Small", "quick": 4000, "thorough": 768000}, {"name": "TestC16Wide", "quick": 30, "thorough": 5760, "min_per_shard": 8}, {"name": "TestC16Mid", "quick": 1000, "thorough": 192000},
+        "tests": [{"name": "TestC16Small", "quick": 4000, "thorough": 768000}, {"name": "TestC16Wide", "quick": 30, "thorough": 5760, "min_per_shard": 8}, {"name": "TestC16Mid", "quick": 1000, "thorough": 192000}, {"name": "TestC16ManyFields", "quick": 100, "thorough": 9600, "min_per_shard": 20},
                   {"name": "TestC16Regress", "quick": 0}],
         "assumptions": COMMON_ASSUMPTIONS + ["reported field length equals the sum of the field's term frequencies (the property's stated domain)"],
     },
     "C17": {
         "level": "exploration",
-        "tests": [{"name": "TestC17Small", "quick": 1200, "thorough": 230400}, {"name": "TestC17Wide", "quick": 30, "thorough": 3840, "min_per_shard": 8}],
+        "tests": [{"name": "TestC17Small", "quick": 1200, "thorough": 230400}, {"name": "TestC17Wide", "quick": 40, "thorough": 3840, "min_per_shard": 8}],
         "assumptions": [COMMON_ASSUMPTIONS[0], COMMON_ASSUMPTIONS[2], "metamorphic: no reference model is involved, only observational equality of two merge results"],
     },
     "C18": {
@@ -118,7 +118,7 @@ CHECKS = {
     },
     "C19": {
         "level": "fault_enumeration",
-        "tests": [{"name": "TestC19Small", "quick": 120, "thorough": 11520, "min_per_shard": 20}, {"name": "TestC19Blocks", "quick": 10, "thorough": 960, "min_per_shard": 5}, {"name": "TestC19Wide", "quick": 12, "thorough": 480, "min_per_shard": 4},
+        "tests": [{"name": "TestC19Small", "quick": 160, "thorough": 11520, "min_per_shard": 20}, {"name": "TestC19Blocks", "quick": 10, "thorough": 960, "min_per_shard": 5}, {"name": "TestC19Wide", "quick": 12, "thorough": 480, "min_per_shard": 4},
                   {"name": "TestC19Regress", "quick": 0}, {"name": "TestC19RegressRetry", "quick": 0}],
         "assumptions": ["storage faults are injected by swapping the unexported io.ReaderAt inside segment.Data (reflect+unsafe, self-tested at start-up) before ice.Load; every ReadAt from index k on fails",
                         "faults during ice.Load itself are not injected (Load is not a read call on a segment)",
